@@ -464,6 +464,28 @@ pub fn gen_c04(rng: &mut Rng, thorough: bool) -> Vec<Tagged> {
             out.push((tag, Case::Net(spec, NetCmd::Learn { data, val: None, batch, epochs })));
         }
     }
+    // feedback blocks whose layers mix bias / no bias (the per-sample bias gradients are optional
+    // entries of a nested list), summed over groups of two and three samples
+    for r in 0..(if thorough { 24 } else { 6 }) {
+        let n = rng.range(2, 3);
+        let mut spec = NetSpec::new(Sh::Flat(n).to_shape());
+        let biases: &[bool] = [&[true, false][..], &[false, true], &[true, false, true]][r % 3];
+        let ls: Vec<Simple> = biases.iter().map(|b| Simple::Dense { out: n, act: *rng.pick(&[Act::Linear, Act::Tanh]), bias: *b, dropout: None }).collect();
+        let bw: Vec<W> = ls.iter().map(|l| rand_w(rng, l, Sh::Flat(n), 2)).collect();
+        spec.layers.push(LayerSpec::Block { layers: ls, loops: 1 + r % 2, inskips: false, outskips: false, acc: Acc::Mean });
+        let mut ws = vec![LW::Block(bw)];
+        if r % 2 == 0 {
+            let d = Simple::Dense { out: 1, act: Act::Linear, bias: true, dropout: None };
+            ws.push(LW::One(rand_w(rng, &d, Sh::Flat(n), 2)));
+            spec.layers.push(LayerSpec::One(d));
+        }
+        spec.weights = Some(ws);
+        spec.opt = rand_opt(rng, r % 5);
+        spec.obj = Obj::MSE;
+        let outsh = if r % 2 == 0 { Sh::Flat(1) } else { Sh::Flat(n) };
+        let data = rand_data(rng, 5, Sh::Flat(n), outsh, Obj::MSE);
+        out.push(("learn-block-mixed-bias".into(), Case::Net(spec, NetCmd::Learn { data, val: None, batch: 2 + r % 2, epochs: 2 })));
+    }
     // groups of more than 64 samples (the library's internal chunk size of the parallel map is 64):
     // one step on the sum over the WHOLE group
     for r in 0..(if thorough { 12 } else { 4 }) {
@@ -756,6 +778,31 @@ pub fn gen_c05(rng: &mut Rng, thorough: bool) -> Vec<Tagged> {
             out.push(("par-learn".into(), Case::Net(spec.clone(), NetCmd::Learn { data, val: Some((val.clone(), 100)), batch: rng.range(2, 5), epochs: 2 })));
             out.push(("par-predict-batch".into(), Case::Net(spec, NetCmd::PredictBatch(val.iter().map(|d| d.0.clone()).collect()))));
         }
+    }
+    // chains of padded convolutions with equal padded input sizes but different paddings (a buffer
+    // reused across samples on one worker thread would leak values between samples)
+    for r in 0..(if thorough { 12 } else { 3 }) {
+        let pads: &[usize] = [&[2usize, 1][..], &[0, 1], &[2, 1, 1]][r % 3];
+        let in0 = 6 - 2 * pads[0];
+        let input = Sh::Sp(1, in0, in0);
+        let mut cur = input;
+        let mut sp = NetSpec::new(input.to_shape());
+        let mut ws = vec![];
+        for &p in pads {
+            let c = Simple::Conv { filters: 1, kernel: (3, 3), stride: (1, 1), padding: (p, p), dilation: (1, 1), act: Act::Tanh, dropout: None };
+            ws.push(LW::One(rand_w(rng, &c, cur, 2)));
+            cur = out_shape(&c, cur).unwrap();
+            sp.layers.push(LayerSpec::One(c));
+        }
+        let d = Simple::Dense { out: 2, act: Act::Linear, bias: true, dropout: None };
+        ws.push(LW::One(rand_w(rng, &d, Sh::Flat(cur.numel()), 2)));
+        sp.layers.push(LayerSpec::One(d));
+        sp.weights = Some(ws);
+        sp.opt = rand_opt(rng, 0);
+        let data = rand_data(rng, 9, input, Sh::Flat(2), Obj::MSE);
+        let xs: Vec<Tensor> = (0..70).map(|_| rand_input(rng, input, 2)).collect();
+        out.push(("par-learn-conv-chain-equal-padded-size".into(), Case::Net(sp.clone(), NetCmd::Learn { data, val: None, batch: 3, epochs: 2 })));
+        out.push(("par-predict-batch-conv-chain-equal-padded-size".into(), Case::Net(sp, NetCmd::PredictBatch(xs))));
     }
     // shared-source skip connections: several skip gradients are summed in the backward pass
     for _ in 0..(if thorough { 12 } else { 3 }) {
